@@ -194,9 +194,40 @@ class ClassBuilder:
       return ["const", w, self.draw(uvalue(w))]
     return e
 
+  def vslice(self, w, env):
+    """C10 only: a variable part-select x[ lo : hi + w ].  The checker may accept it only when lo and hi are the same
+    expression (the width is then w); half of the time they are different elements of one list or different signals"""
+    d = self.draw
+    # the checker wants bounds of exactly clog2(n) bits for an n-bit operand, and w must fit in them: pick an operand
+    # for which such index sources exist
+    all_src = self.bits_sources()
+    lists_all = [l for l in self.lists if l[3][0] == "b" and not isinstance(l[2], list) and l[2] >= 2]
+    cands = []
+    for ref, sw in all_src:
+      if not (w < sw <= 64): continue
+      iw = max(1, (sw - 1).bit_length())
+      if w >= (1 << iw): continue
+      ls = [l for l in lists_all if l[3][1] == iw]
+      pl = [r for r, pw in all_src if pw == iw]
+      if ls or pl: cands.append((ref, sw, ls, pl))
+    if not cands: return None
+    ref, sw, ls, pl = d(st.sampled_from(cands))
+    if ls and (not pl or d(st.booleans())):
+      inst, base, cnt, t = d(st.sampled_from(ls))
+      i = d(st.integers(0, cnt - 1)); j = i if d(st.booleans()) else d(st.integers(0, cnt - 1))
+      lo = ["lsel", mkref(base, inst=inst), cnt, ["lit", i], None, None]
+      hi = ["lsel", mkref(base, inst=inst), cnt, ["lit", j], None, None]
+    else:
+      a = d(st.sampled_from(pl)); b = a if d(st.booleans()) else d(st.sampled_from(pl))
+      lo, hi = ["sig", a], ["sig", b]
+    return ["vslice", ref, lo, hi, w]
+
   def _expr(self, w, env, depth=0):
     d = self.draw
     maxd = env.get("maxd", 3)
+    if self.opts["sloppy"] and w <= 8 and d(st.integers(0, 19)) == 0:
+      e = self.vslice(w, env)
+      if e is not None: return e
     if depth >= maxd or d(st.integers(0, 9)) < 3 + depth:
       return self.leaf(w, env)
     k = d(st.integers(0, 15))
@@ -289,6 +320,13 @@ class ClassBuilder:
     d = self.draw
     if self.opts["cvars"] and not self.opts["sloppy"] and d(st.integers(0, 11)) == 0 and len(self.consts) < 4:
       return self.cvar(w, d(st.booleans()))
+    if self.opts["sloppy"] and d(st.integers(0, 11)) == 0:
+      # an if-expression whose two branches are bare ints of (possibly) different sizes, as an operand
+      top = (1 << w) - 1
+      small = ["lit", d(st.integers(0, min(top, 3)))]
+      big = ["lit", d(st.sampled_from([top, top + 1, top + d(st.integers(1, 300)), d(st.integers(0, top))]))]
+      a, b = (small, big) if d(st.booleans()) else (big, small)
+      return ["ifexp", self.expr(1, env, depth + 1), a, b]
     if self.opts["sloppy"] and d(st.integers(0, 5)) == 0:
       k = d(st.integers(0, 5))
       top = (1 << w) - 1
@@ -630,8 +668,28 @@ class ClassBuilder:
     inner = ["s", "DI", [["a", ["b", wa]], ["b", ["b", wb]]]]
     outer = ["s", "DO", [["p", inner], ["r", ["b", wr]]] if d(st.booleans()) else [["r", ["b", wr]], ["p", inner]]]
     y = self.new_signal(outer, force_wire=d(st.booleans()))
-    variant = d(st.sampled_from(["struct_mid", "bits_mid", "both"]))
+    variant = d(st.sampled_from(["struct_mid", "bits_mid", "both", "whole_then_part", "whole_then_part"]))
     k = d(st.integers(1, wa - 1))
+    if variant == "whole_then_part":
+      # one block assigns the whole signal and then overrides a deep part; another deep part (a sibling two or more
+      # levels down) feeds a net: it is that net's writer through the fully written top-level ancestor, although the
+      # ancestor in between is only partially written
+      env = {"tmps": [], "lv": [], "maxd": 2}
+      stmts = [["assign", mkref(y), self.expr(type_width(outer), env)]]
+      shape = d(st.integers(0, 2))
+      if shape == 0:
+        stmts.append(["assign", mkref(y, fld=["p", "b"]), self.expr(wb, env)]); member = (mkref(y, fld=["p", "a"]), wa)
+      elif shape == 1:
+        stmts.append(["assign", mkref(y, fld=["p", "a"], sl=[k, wa]), self.expr(wa - k, env)]); member = (mkref(y, fld=["p", "a"], sl=[0, k]), k)
+      else:
+        stmts.append(["assign", mkref(y, fld=["p", "a"]), self.expr(wa, env)]); member = (mkref(y, fld=["p", "b"]), wb)
+      if d(st.booleans()):
+        stmts.append(["if", self.expr(1, env), [["assign", mkref(y, fld=["r"]), self.expr(wr, env)]], []])
+      self.blocks.append({"name": self.fresh("up"), "kind": "comb", "stmts": stmts})
+      z = self.new_signal(["b", member[1]])
+      self.conns.append([mkref(z), member[0]])
+      self.avail.append((mkref(y), outer)); self.avail.append((mkref(z), ["b", member[1]]))
+      return
     if variant == "struct_mid":
       leaves = [(mkref(y, fld=["p", "a"]), wa), (mkref(y, fld=["p", "b"]), wb)]
       if d(st.booleans()):
@@ -799,7 +857,7 @@ def _flat(t):
 def _is_constant(e):
   k = e[0]
   if k in ("const", "lit", "cvar"): return True
-  if k in ("sig", "tmp", "tmpsl", "lv", "bit", "slice_lv", "lsel"): return False
+  if k in ("sig", "tmp", "tmpsl", "lv", "bit", "slice_lv", "lsel", "vslice"): return False
   if k == "bin": return _is_constant(e[2]) and _is_constant(e[3])
   if k in ("shl", "shr"): return _is_constant(e[1]) and _is_constant(e[2])
   if k == "cmp": return _is_constant(e[2]) and _is_constant(e[3])
